@@ -147,7 +147,8 @@ type scenario struct {
 	Prefix   string    `json:"prefix"`
 	Subjects []subject `json:"subjects"`
 	Invalid  []string  `json:"invalid"`
-	Unset    bool      `json:"unsetSection"` // the whole section of the invalidated field is left unset (every field zero)
+	Unset    bool      `json:"unsetSection"`
+	FlagForm string    `json:"flagForm"` // single | first | second: the first subject's flag alone, or one of two alternative flags bound together // the whole section of the invalidated field is left unset (every field zero)
 	EnvNames []string  `json:"envNames"`
 }
 
@@ -167,6 +168,7 @@ type loadEvent struct {
 	Subjects   []subjectResult `json:"subjects"`
 	Invalid    []string        `json:"invalid"`
 	Unset      bool            `json:"unsetSection"`
+	FlagForm   string          `json:"flagForm"`
 	Err        string          `json:"err"`
 	NamesField bool            `json:"namesField"`
 	Msg        string          `json:"msg"`
@@ -218,7 +220,7 @@ func yamlOf(m map[string]any, indent string) string {
 }
 
 func loadOne(id int, sc scenario, dir string, rng *rand.Rand) (loadEvent, error) {
-	ev := loadEvent{Op: "Load", ID: id, Prefix: sc.Prefix, Subjects: []subjectResult{}, Invalid: []string{}}
+	ev := loadEvent{Op: "Load", ID: id, Prefix: sc.Prefix, Subjects: []subjectResult{}, Invalid: []string{}, FlagForm: sc.FlagForm}
 	defaults := validDefaults()
 	session := viper.New()
 	flags := pflag.NewFlagSet("c15", pflag.ContinueOnError)
@@ -282,7 +284,27 @@ func loadOne(id int, sc scenario, dir string, rng *rand.Rand) (loadEvent, error)
 			if rng.Intn(2) == 0 { // the name may be given without the prefix
 				envVar = s.Env[len(sc.Prefix)+1:]
 			}
-			if err := config.BindFlagToEnv(session, sc.Prefix, envVar, flags.Lookup(name)); err != nil {
+			if i == 0 && (sc.FlagForm == "first" || sc.FlagForm == "second") {
+				// two alternative flags bound to the field: the one that carries the value is the first or the second of the set
+				other := name + "other"
+				switch s.Kind {
+				case "string":
+					flags.String(other, "", "")
+				case "int":
+					flags.Int(other, 0, "")
+				case "duration":
+					flags.Duration(other, 0, "")
+				case "float":
+					flags.Float64(other, 0, "")
+				}
+				pair := []*pflag.Flag{flags.Lookup(name), flags.Lookup(other)}
+				if sc.FlagForm == "second" {
+					pair[0], pair[1] = pair[1], pair[0]
+				}
+				if err := config.BindFlagsToEnv(session, sc.Prefix, envVar, pair...); err != nil {
+					return ev, err
+				}
+			} else if err := config.BindFlagToEnv(session, sc.Prefix, envVar, flags.Lookup(name)); err != nil {
 				return ev, err
 			}
 		}
